@@ -122,13 +122,21 @@ pub fn spawn_server(bins: &Path, cfg: &SrvCfg, dir: &Path, tag: &str, raw_pairs:
     if cfg.via_env {
         cmd.arg("ENV");
         for (k, v) in &pairs {
-            cmd.env(env_name(k), v);
+            if !k.starts_with("__raw__") {
+                cmd.env(env_name(k), v);
+            }
         }
     } else {
         let path = dir.join(format!("{}.cfg", tag));
         let mut txt = String::new();
         for (k, v) in &pairs {
-            txt.push_str(&format!("{}: {}\n", k, v));
+            if k.starts_with("__raw__") {
+                // verbatim line(s), for malformed-file scenarios
+                txt.push_str(v);
+                txt.push('\n');
+            } else {
+                txt.push_str(&format!("{}: {}\n", k, v));
+            }
         }
         std::fs::write(&path, txt)?;
         cmd.arg(&path);
